@@ -55,10 +55,28 @@ def voronoi_topo(rng, n_sites=30, kind="random", margin=0.12, min_ridge=0.0):
         m = max(3, int(round(math.sqrt(n_sites))))
         g = np.array([(i * math.sqrt(3) / 2, j + 0.5 * (i % 2)) for i in range(m + 1) for j in range(m)]) / m
         pts = g + (rng.random(g.shape) - 0.5) * 1e-3 / m   # tiny jitter keeps Qhull generic
+    elif kind == "quad":
+        # random sites plus one or two rectangles of four concyclic sites with an empty circumcircle: their common Voronoi
+        # vertex is a junction where four cells meet
+        pts = rng.random((n_sites, 2))
+        for _ in range(int(rng.integers(1, 3))):
+            c = rng.uniform(0.3, 0.7, size=2)
+            a, b = rng.uniform(0.06, 0.12, size=2)
+            th = rng.uniform(0, math.pi)
+            rot = np.array([[math.cos(th), -math.sin(th)], [math.sin(th), math.cos(th)]])
+            corners = c + np.array([[a, b], [-a, b], [-a, -b], [a, -b]]) @ rot.T
+            pts = pts[np.hypot(*(pts - c).T) > 1.15 * math.hypot(a, b)]
+            pts = np.vstack([pts, corners])
     else:
         raise ValueError(kind)
     vor = sps.Voronoi(pts)
     lo, hi = pts.min(0) - margin, pts.max(0) + margin
+    rep = list(range(len(vor.vertices)))
+    if kind == "quad":
+        for v in range(len(vor.vertices)):
+            for u in range(v):
+                if abs(vor.vertices[v][0] - vor.vertices[u][0]) < 1e-7 and abs(vor.vertices[v][1] - vor.vertices[u][1]) < 1e-7:
+                    rep[v] = rep[u]; break
     used = {}
     J = []
     cells = []
@@ -71,7 +89,10 @@ def voronoi_topo(rng, n_sites=30, kind="random", margin=0.12, min_ridge=0.0):
         if np.any(vs < lo) or np.any(vs > hi):
             continue
         ang = np.arctan2(vs[:, 1] - pts[pi, 1], vs[:, 0] - pts[pi, 0])
-        order = [reg[k] for k in np.argsort(ang)]
+        order = [rep[reg[k]] for k in np.argsort(ang)]
+        order = [v for k, v in enumerate(order) if v != order[k - 1]] if len(set(order)) < len(order) else order
+        if len(order) < 3:
+            continue
         cyc = []
         for v in order:
             if v not in used:
@@ -185,10 +206,13 @@ class Mobius:
 
 
 class Similarity:
-    def __init__(self, angle=0.0, scale=1.0, shift=0j, reflect=False):
+    def __init__(self, angle=0.0, scale=1.0, shift=0j, reflect=False, stretch=1.0):
+        self.stretch = stretch      # anisotropic factor on y, applied first (only for properties that do not need force balance)
         self.angle, self.scale, self.shift, self.reflect = angle, scale, complex(shift), reflect
 
     def __call__(self, z):
+        if self.stretch != 1.0:
+            z = np.real(z) + 1j * self.stretch * np.imag(z)
         if self.reflect:
             z = np.conj(z)
         return z * (self.scale * np.exp(1j * self.angle)) + self.shift
